@@ -127,7 +127,7 @@ theorem rank_lt {α} (l : List α) (m : List Bool) (v : Nat) (hlen : l.length = 
 /-! ### membership -/
 
 theorem present_iff (ts : List Tri) (v : Nat) : present ts v = true ↔ ∃ t ∈ ts, v ∈ t.verts := by
-  simp [present, List.any_eq_true, List.contains_iff_mem]
+  simp [present, List.any_eq_true]
 
 theorem mem_verts_map (f : Nat → Nat) (t : Tri) (w : Nat) :
     w ∈ (Tri.map f t).verts ↔ ∃ v ∈ t.verts, f v = w := by
